@@ -123,17 +123,40 @@ func zzC19WireHeader(raw []byte, cidLen int) recordlayer.Header {
 	return h
 }
 
-// An established DTLS 1.2 connection (either role, with or without a negotiated connection ID, local epoch 1,
-// next sequence number s0 anywhere in 0..2^48-1-2*NREC) sends n1 = 0..NREC application records through
-// writeApplicationData; its state is then taken with ConnectionState, passed through serialize / deserialize
-// (gob = identity), turned into an internal state by generateInternalState and installed by the resume branch of
-// prepareHandshakeStart on a fresh Conn, which sends n2 = 0..NREC more application records. The k-th record of the
-// whole run (k = 0..n1+n2-1) leaves with epoch 1 and sequence number s0+k, both on the wire and in the header given
-// to the cipher: the resumed connection continues the record sequence, no (epoch, sequence number) pair - hence no
-// AEAD nonce - is used twice, and the connection-ID framing of the records is the same before and after. A second
-// export taken from the resumed connection reports sequence number s0+n1+n2.
+// zzC19SameNegotiated: every field of two exported States other than the sequence number is equal.
+func zzC19SameNegotiated(a, b *State) bool {
+	alr, arr := a.localRandom.MarshalFixed(), a.remoteRandom.MarshalFixed()
+	blr, brr := b.localRandom.MarshalFixed(), b.remoteRandom.MarshalFixed()
+	ok := zzsymAnd(a.localEpoch == b.localEpoch, a.remoteEpoch == b.remoteEpoch)
+	ok = zzsymAnd(ok, zzsymAnd(zzsymEqBytes(alr[:], blr[:]), zzsymEqBytes(arr[:], brr[:])))
+	ok = zzsymAnd(ok, zzsymEqBytes(a.masterSecret, b.masterSecret))
+	ok = zzsymAnd(ok, a.srtpProtectionProfile == b.srtpProtectionProfile)
+	ok = zzsymAnd(ok, zzsymEqBytes(a.peerSRTPMKI, b.peerSRTPMKI))
+	ok = zzsymAnd(ok, zzsymEqBytes(a.localConnectionID, b.localConnectionID))
+	ok = zzsymAnd(ok, zzsymEqBytes(a.remoteConnectionID, b.remoteConnectionID))
+	ok = zzsymAnd(ok, zzsymAnd(a.rrcNegotiated == b.rrcNegotiated, a.isClient == b.isClient))
+	ok = zzsymAnd(ok, zzsymAnd(a.version == b.version, a.CipherSuiteID == b.CipherSuiteID))
+	ok = zzsymAnd(ok, zzC19EqCerts(a.PeerCertificates, b.PeerCertificates))
+	ok = zzsymAnd(ok, zzsymEqBytes(a.IdentityHint, b.IdentityHint))
+	ok = zzsymAnd(ok, zzsymEqBytes(a.SessionID, b.SessionID))
+	ok = zzsymAnd(ok, zzsymEqStr(a.NegotiatedProtocol, b.NegotiatedProtocol))
+	return ok
+}
+
+// An established DTLS 1.2 connection (either role, with or without a negotiated connection ID, SRTP profile, MKI and
+// ALPN negotiated, local epoch 1, next sequence number s0 anywhere in 0..2^48-1-3*NREC) sends n0 = 0..NREC
+// application records through writeApplicationData; ConnectionState is called a first time (its result is kept);
+// the connection sends n1 = 0..NREC more records; ConnectionState is called again and THIS state is passed through
+// serialize / deserialize (gob = identity), turned into an internal state by generateInternalState and installed by
+// the resume branch of prepareHandshakeStart on a fresh Conn, which sends n2 = 0..NREC more records. So the export
+// point is arbitrary, also relative to earlier exports. Each exported State carries exactly the next unused
+// sequence number at its own export point (s0+n0, then s0+n0+n1) and the current epochs; the two States differ in
+// nothing else. The k-th record of the whole run (k = 0..n0+n1+n2-1) leaves with epoch 1 and sequence number s0+k,
+// both on the wire and in the header given to the cipher: the resumed connection continues the record sequence, no
+// (epoch, sequence number) pair - hence no AEAD nonce - is used twice, and the connection-ID framing of the records is
+// the same before and after. A further export taken from the resumed connection reports s0+n0+n1+n2.
 //
-//symgo:entry covers=client,server,plain,cidwrap,export_fresh,export_after_records,resumed_idle,resumed_sends
+//symgo:entry covers=client,server,plain,cidwrap,export_fresh,export_after_records,second_export_same_point,second_export_later,resumed_idle,resumed_sends
 func zzC19ResumeContinuesSequence() {
 	zzC19SeqEpochs, zzC19SeqSeqs = nil, nil
 	nrec := zzsymParam("NREC")
@@ -152,23 +175,44 @@ func zzC19ResumeContinuesSequence() {
 	st1.SetLocalEpoch(1)
 	st1.SetRemoteEpoch(1)
 	s0 := zzsymU64("s0")
-	zzsymAssume(s0 <= recordlayer.MaxSequenceNumber-uint64(2*nrec))
+	zzsymAssume(s0 <= recordlayer.MaxSequenceNumber-uint64(3*nrec))
 	st1.LocalSequenceNumber = []uint64{zzsymU64("ctr0"), s0}
 	if cidLen > 0 {
 		st1.RemoteConnectionID = zzsymBytes("rcid", cidLen)
 		st1.SetLocalConnectionID(zzsymBytes("lcid", 1))
 	}
+	st1.SetSRTPProtectionProfile(SRTP_AES128_CM_HMAC_SHA1_80)
+	st1.RemoteSRTPMasterKeyIdentifier = zzsymBytes("mki", 2)
+	st1.NegotiatedProtocol = zzsymString("alpn", 2)
+	st1.RRCNegotiated = zzsymBool("rrc")
 
 	ctx := context.Background()
+	n0 := zzsymChoice("n0", nrec+1)
+	for i := 0; i < n0; i++ {
+		pkt := c1.newApplicationDataPacket(zzsymBytes("pay0", zzsymParam("NPAY")))
+		zzsymAssert(c1.writeApplicationData(ctx, []*dtlsflight.Packet{pkt}) == nil, "write_before_export_ok")
+	}
+
+	// an earlier export, kept by the application
+	early, ok := c1.ConnectionState()
+	zzsymAssert(ok, "early_export_ok")
+	zzsymAssert(early.sequenceNumber == s0+uint64(n0), "early_export_next_unused_sequence_number")
+	zzsymAssert(zzsymAnd(early.localEpoch == 1, early.remoteEpoch == 1), "early_export_epochs")
+
 	n1 := zzsymChoice("n1", nrec+1)
 	for i := 0; i < n1; i++ {
 		pkt := c1.newApplicationDataPacket(zzsymBytes("pay1", zzsymParam("NPAY")))
 		zzsymAssert(c1.writeApplicationData(ctx, []*dtlsflight.Packet{pkt}) == nil, "write_before_export_ok")
 	}
+	n1 += n0 // from here on: number of records sent by the exporting connection
 
-	// export ... import
+	// the export that is resumed from ... import
 	exported, ok := c1.ConnectionState()
 	zzsymAssert(ok, "export_ok")
+	zzsymAssert(exported.sequenceNumber == s0+uint64(n1), "export_next_unused_sequence_number")
+	zzsymAssert(zzsymAnd(exported.localEpoch == 1, exported.remoteEpoch == 1), "export_current_epochs")
+	zzsymAssert(zzC19SameNegotiated(&early, &exported), "exports_differ_only_in_sequence_number")
+	zzsymAssert(early.sequenceNumber == s0+uint64(n0), "earlier_export_not_changed_by_later_records")
 	ser, err := exported.serialize()
 	zzsymAssert(err == nil, "serialize_ok")
 	var imported State
@@ -238,6 +282,11 @@ func zzC19ResumeContinuesSequence() {
 		zzsymCover("export_fresh")
 	} else {
 		zzsymCover("export_after_records")
+	}
+	if n1 == n0 {
+		zzsymCover("second_export_same_point")
+	} else {
+		zzsymCover("second_export_later")
 	}
 	if n2 == 0 {
 		zzsymCover("resumed_idle")
